@@ -1,10 +1,10 @@
 INIT Init
 NEXT Next
 CONSTANTS MaxLen = 3
-  Sizes = {80, 10064}
-  Pkts <- LinkPkts
-  Filters <- LinkFilters
-  CutAll = TRUE
+  Sizes = {64, 80}
+  Pkts <- FeePkts
+  Filters <- FeeFilters
+  CutAll = FALSE
   Cap = 2
   Defect = "none"
 INVARIANTS Refines TrackedIsTrue OffsetsTrue BatchesFull
